@@ -19,10 +19,14 @@ REQUESTS = {
     # two plain 404s that differ only in the negotiated format of the error page
     'missing_html': ('GET', '/nope/h', {'Accept': 'text/html'}), 'missing_json': ('GET', '/nope/j', {'Accept': 'application/json'}),
     'boom_xml': ('GET', '/boom/8', {'Accept': 'application/xml'}),
+    'boom2': ('GET', '/boom/9'),                       # a second uncaught exception with its own message
+    # the same application reached under another root URL (virtual host): its slash redirect names that host
+    'redir_beta': ('GET', '/branch', {'Host': 'beta.example'}),
 }
 PAIRS_QUICK = [('item1', 'item2'), ('item1', 'boom'), ('post', 'wrong'), ('nb', 'missing'), ('redir', 'item2'), ('ctx', 'multi'), ('nbfall', 'item1'),
                ('post2', 'put2'), ('get2', 'post2'), ('redir', 'missing'), ('item1', 'wrong'),
-               ('missing_html', 'missing_json'), ('missing_json', 'missing_html'), ('boom', 'boom_xml'), ('missing', 'missing_json')]
+               ('missing_html', 'missing_json'), ('missing_json', 'missing_html'), ('boom', 'boom_xml'), ('missing', 'missing_json'),
+               ('boom', 'boom2'), ('boom2', 'boom'), ('redir', 'redir_beta'), ('redir_beta', 'redir')]
 
 
 def build_app():
@@ -82,7 +86,10 @@ def serve(app, name):
     r = wsgi.call(app, wsgi.environ(path, method=method, headers=headers))
     body = r.body.decode('utf8', 'replace')
     if r.code == 500:
-        body = body[:40]
+        # the page names the exception and its message (boom 7 / boom 9); the traceback below it varies with the schedule
+        import re
+        m = re.search(r'boom \d+', body)
+        body = body[:40] + '|' + (m.group(0) if m else '')
     return {'status': r.code, 'body': body, 'ctype': r.header('Content-Type'), 'loc': r.header('Location'), 'tok': r.header('X-Tok'),
             'rid': r.header('X-Req-Id'),
             'exc': type(r.exc).__name__ if r.exc else None}
